@@ -27,3 +27,24 @@ CLAIMS["C07"] = ("proof",
     "inputs; loss scales N[k,k] by T (never increases the photon number for 0<=T<=1).",
     _TB + "Physicality (uncertainty relation) follows from the canonical (A,B) by a textbook lemma that is trusted, not proved. "
     "Fock/bosonic clauses planned.", "deductive verification: VCs from the real source + z3/cvc5", "DESIGN.md 5/C07")
+CLAIMS["C18"] = ("proof",
+    "Program.__eq__ is proved sound for circuits of ARBITRARY length (symbolic lists of command stubs; loop invariant = the "
+    "property's per-position clause): reported equal implies same number of commands and position-wise same class, "
+    "parameters, modes, dagger flag and post-selection. program_equivalence: the node attributes and node_match are proved "
+    "to imply same class, parameters within tolerance, same mode set (same order for order-sensitive gates), same dagger, "
+    "by running the real function (and real networkx) on one-command programs with symbolic parameters and flags for a "
+    "5-class alphabet x all mode placements; reflexive shortcut proved. Two genuine defects found this way were repaired "
+    "(fix: commits bf95bfe, a4b227a).",
+    _TB + "networkx.is_isomorphic is an assumed library contract (returns True only if a node_match-respecting bijection exists); "
+    "invariance under permuting commuting commands rests on list_to_DAG being a function of per-wire orders (C04).",
+    "deductive verification: VCs from the real source + z3/cvc5", "DESIGN.md 5/C18")
+CLAIMS["C02"] = ("proof",
+    "For Xgate, Zgate, Pgate, Fouriergate, MZgate, S2gate, CXgate, CZgate the REAL Gate.decompose/_decompose is executed on "
+    "opaque real parameters (and symbolic hbar where it matters); the emitted command list, folded with the documented "
+    "Heisenberg action of each primitive, equals the documented action of the composite for EVERY parameter value, for the "
+    "dagger form (true inverse) and for every order/choice of target modes tried (ascending, descending, non-adjacent). "
+    "Gate.apply's first-parameter convention (0 = identity, negation = inverse) is proved for every natively applied Gaussian "
+    "gate class; it fails for MZgate (findings F36, F37, open, replayed on every run).",
+    _TB + "Not yet under contract: mesh command builders (Interferometer), Gaussian/GraphEmbed/GaussianTransform decompositions "
+    "(LAPACK; planned as bounded stand-ins), Compiler.decompose driver.",
+    "deductive verification: VCs from the real source + z3/cvc5 (NRA with transcendental abstraction)", "DESIGN.md 5/C02")
